@@ -347,7 +347,15 @@ func VerifC16Straddle() {
 	extra := nd.Choice("with-the-straddling-placeholder", 2) == 1
 	var err error
 	var panicked bool
-	switch nd.Choice("request", 4) {
+	switch nd.Choice("request", 5) {
+	case 4: // every supplied placeholder is used, and one is a prefix of another (":v" and ":v2", "#n" and "#n1")
+		extra = false
+		err, panicked = vCatch(func() error {
+			_, e := c.UpdateItem(vCtx, &dynamodb.UpdateItemInput{TableName: aws.String(vTbl), Key: vItem{"p": vS("k")},
+				UpdateExpression: aws.String("SET #n = :v, #n1 = :v2"), ConditionExpression: aws.String("#n <> :v2 AND a <> :v"),
+				ExpressionAttributeNames: map[string]string{"#n": "b", "#n1": "c"}, ExpressionAttributeValues: vItem{":v": vS("y"), ":v2": vS("z")}})
+			return e
+		})
 	case 0: // UpdateExpression ends in ":p", ConditionExpression starts with "q"
 		vals := vItem{":p": vS("y")}
 		if extra {
